@@ -139,7 +139,10 @@ impl Engine for Bcast {
         }
         out
     }
-    fn gen(&self, rng: &mut Rng, _idx: usize, _tier: Tier, _focus: &str) -> Case {
+    fn gen(&self, rng: &mut Rng, _idx: usize, tier: Tier, _focus: &str) -> Case {
+        if rng.chance(1, if tier == Tier::Quick { 150 } else { 600 }) {
+            return Case { lines: vec![format!("lockstress {} {} {}", rng.range(2, 4), rng.range(2, 4), if tier == Tier::Quick { 300 } else { 1500 })] };
+        }
         if rng.chance(1, 6) {
             let ports = rng.chance(1, 2);
             let mut lines = vec![if ports { "case lock ports".to_string() } else { "case lock".to_string() }];
@@ -240,6 +243,50 @@ impl Engine for Bcast {
                     b = Some(BState::new());
                     l = None;
                     "ok".into()
+                }
+                ["lockstress", writers, n, rounds] => {
+                    // several threads add values through their own clone of one cached lock, all at the same time; afterwards
+                    // every clone (and a fresh one) must read all of them: a write is atomic and bumps the shared epoch
+                    let (writers, n, rounds): (usize, usize, usize) = (writers.parse().unwrap(), n.parse().unwrap(), rounds.parse().unwrap());
+                    let mut bad: Option<String> = None;
+                    for round in 0..rounds {
+                        let root = VCachedRwLock::new();
+                        let barrier = std::sync::Arc::new(std::sync::Barrier::new(writers));
+                        let hs: Vec<_> = (0..writers)
+                            .map(|wi| {
+                                let mut c = root.clone();
+                                let barrier = barrier.clone();
+                                std::thread::spawn(move || {
+                                    barrier.wait();
+                                    for k in 0..n {
+                                        c.write_push(wi * 1000 + k);
+                                        let _ = c.read();
+                                    }
+                                    c
+                                })
+                            })
+                            .collect();
+                        let mut clones: Vec<VCachedRwLock> = hs.into_iter().map(|h| h.join().unwrap()).collect();
+                        clones.push(root.clone());
+                        for (ci, c) in clones.iter_mut().enumerate() {
+                            let mut got = c.read();
+                            got.sort();
+                            let mut want: Vec<usize> = (0..writers).flat_map(|wi| (0..n).map(move |k| wi * 1000 + k)).collect();
+                            want.sort();
+                            if got != want && bad.is_none() {
+                                bad = Some(format!("round {round}: after {writers} threads each added {n} connections through their own clone, clone {ci} reads {} of {} ({:?} …)", got.len(), want.len(), &got[..got.len().min(8)]));
+                            }
+                        }
+                        if bad.is_some() {
+                            break;
+                        }
+                    }
+                    if let Some(b) = &bad {
+                        out.monitor.push(("C14".into(), format!("{b}: a connection added through one clone is not used by another clone's subsequent sends")));
+                    }
+                    out.nontrivial = true;
+                    out.tags.push("lockstress".into());
+                    if bad.is_some() { "lockstress lost".into() } else { "lockstress ok".into() }
                 }
                 ["case", "lock"] => {
                     l = Some(LState::Lock(vec![VCachedRwLock::new()]));
